@@ -421,7 +421,8 @@ func (ex *Exec) armedTimers() []*VTimer {
 // choice is computed separately (a due timer precedes low threads).
 func (ex *Exec) candidates(prev int) (cs []cand, nThreads int, def int, prevEn bool) {
 	isEn := func(t *Thread) bool { return !t.done && (t.enabled == nil || t.enabled()) }
-	if prev >= 0 && isEn(ex.threads[prev]) && !ex.threads[prev].low {
+	if prev >= 0 && isEn(ex.threads[prev]) {
+		// the running thread goes on (also a low-priority fault thread, once it was started)
 		cs = append(cs, cand{t: ex.threads[prev]})
 		prevEn = true
 	}
@@ -432,11 +433,8 @@ func (ex *Exec) candidates(prev int) (cs []cand, nThreads int, def int, prevEn b
 		cs = append(cs, cand{t: t})
 	}
 	nNormal := len(cs)
-	if prev >= 0 && isEn(ex.threads[prev]) && ex.threads[prev].low {
-		cs = append(cs, cand{t: ex.threads[prev]})
-	}
 	for _, t := range ex.threads {
-		if !t.low || t.id == prev || !isEn(t) {
+		if !t.low || (prevEn && t.id == prev) || !isEn(t) {
 			continue
 		}
 		cs = append(cs, cand{t: t})
